@@ -1,2 +1,3 @@
 /* representation invariant of Simulate1802: reg_p, reg_x, reg_n index reg_r[16] (masked with & 0xf) */
 #define WF(s) ((s).reg_p < 16 && (s).reg_x < 16 && (s).reg_n < 16)
+#define PCVAL(s) ((unsigned)(s).reg_r[(s).reg_p & 15])
